@@ -225,6 +225,7 @@ func wellFormedRequest(list []F, trailers []F, bodyLen int) (bool, string) {
 func TestC20(t *testing.T) {
 	r := vf.Begin(t, "C20")
 	defer r.End()
+	defer perturbReport(r)
 	r.Describe("client half (every third case): one response among 2-5 made malformed by 1-2 rule violations (missing/duplicate/late/invalid :status, request or unknown pseudo-header, upper-case name, connection-specific field, non-numeric content-length, pseudo-header or upper-case in trailers), optionally replayed through table indexes; the caller of that request gets nil iff an independent predicate says well-formed, every other caller and a probe afterwards get exactly their responses, no GOAWAY. "+
 		"server half: labelled header lists - well-formed requests of every shape the property names (repeated fields, several cookie fields, te: trailers, content-length on bodiless methods, HEAD/OPTIONS, long values, bodies, trailers) and malformed ones made by 1-2 rule violations "+
 		"(each pseudo-header missing/duplicated/late/unknown/response pseudo-header, empty :path, upper-case at any position, each connection-specific name, te other than trailers, content-length non-numeric/empty/negative/overflowing/mismatching, pseudo-header or upper-case in trailers), "+
